@@ -79,6 +79,9 @@ def build(seed: int, pid: str, ncfg: int) -> Tuple[Dict[str, Any], List[Dict[str
         geo["rewrite"] = moves
         geo["rewrite_remesh"] = (not moves) and mr.chance(0.4)
         geo["rewrite_back"] = bool(moves) and mr.chance(0.5)
+    if pid == "C04" and "pie" not in geo and rs.sub("scale").chance(0.08):
+        geo = P.scale_geo(geo, rs.sub("scale", "s").pick([1e-3, 3e-4, 1e-4]))
+        geo.pop("rewrite", None)
     if rs.sub("retry").chance(0.25):
         geo["retry"] = True
         if geo.get("late_chops") and rs.sub("retry", "fix").chance(0.6):
